@@ -714,3 +714,25 @@ theorem retainList_sub (l : List Nat) : ∀ rest, (retainList subClosure rest l)
     cases (Arr.gallop rest x).head? == some x <;> rfl
 
 end Roaring.Unsafe
+
+/-! ### `retain` with a stateless predicate (fidelity audit) -/
+
+namespace Roaring.Unsafe
+open Roaring
+
+/-- `retain` with a stateless predicate (the closures `|x| rhs.contains(x)` / `|x| !rhs.contains(x)` of
+    `ArrayStore &= &BitmapStore` / `-= &BitmapStore`) keeps exactly `List.filter` -/
+theorem retainList_filter (p : Nat → Bool) : ∀ l : List Nat,
+    (retainList (fun (_ : Unit) x => ((), p x)) () l).1 = l.filter p := by
+  intro l
+  induction l with
+  | nil => rfl
+  | cons x l ih =>
+    simp only [retainList, ih, List.filter_cons]
+
+theorem retain_filter (p : Nat → Bool) (vec : Array Nat) :
+    (retain (fun (_ : Unit) x => ((), p x)) () vec).1.toList = vec.toList.filter p := by
+  rw [(retain_eq _ _ _).1, retainList_filter]
+
+
+end Roaring.Unsafe
